@@ -45,23 +45,24 @@ TEXT = {
  "C12": dict(text="Real compress() at level 0 with Sync/Full/Partial flush on <= 2 symbolic bytes: the emitted prefix decodes (independent stored decoder) to all input so far and Sync/Full end with 00 00 FF FF "
                   "on a byte boundary. Levels >= 1 and multi-call drains are outside the bound.",
              note=TB),
- "C13": dict(text="Real inflate() against any core behaviour within contract D1-D7: a first call with every format/flush/size combination (thorough), concrete-size variants (quick): counts within buffers, delivered "
-                  "bytes are the next plaintext bytes, StreamEnd <=> core done and all delivered, Full => stream error without side effects, progress, wrapper invariant; format -> decoder flag mapping.",
+ "C13": dict(text="Real inflate(): quick tier: inductive step from an arbitrary wrapper state for a full-flush request (stream error, nothing touched) and the done state of the core repeating; thorough tier (550-770 s each): "
+                  "inductive step for every branch that must not reach the core (sticky errors, Finish stickiness, pending-window hand-off with ring wrap) and a first call with every format/flush/size combination against any core "
+                  "behaviour within contract D1-D7 (counts within buffers, delivered bytes are the next plaintext bytes, StreamEnd <=> core done and all delivered, progress, wrapper invariant, window integrity). Call sequences do not fit.",
              note=TB + "Conditional on D1-D7; the contract stub produces <= 3 bytes per core call."),
  "C14": dict(text="Real deflate() for every sequence of three calls (input 0..2, output 0..3, 5 flush values) against any core behaviour within K1-K5: every clause of the property is an assertion; plus the real "
                   "core at level 0 (Done only after Finish, BadParam afterwards).",
              note=TB + "Conditional on K1-K5 beyond the level-0 bound."),
- "C15": dict(text="For all n < 2^32: mz_deflateBound(n) >= exact size of the level-0 (worst-case expansion) zlib stream, no overflow, mz_compressBound identical (exact); the size formula is tied to the real "
+ "C15": dict(text="For all n < 2^32: mz_deflateBound(n) >= exact size of the level-0 zlib stream and >= both arms of the documented sufficient bound, no overflow, mz_compressBound identical (exact); the size formula is tied to the real "
                   "compressor by the level-0 harnesses (n <= 3) and by refcheck at block-cut boundaries. Expansion at levels >= 1 on adversarial data is outside the bound.",
              note=TB),
  "C16": dict(text="Adler-32 update = RFC 1950 definition for every valid running value and 2 bytes, 4 bytes with every split (thorough); compressor's running Adler at level 0; decoder's adler32() for fixed "
                   "payloads under every schedule. NMAX-length inputs, the SIMD build and crc32fast's intrinsics path are outside the bound (refcheck compares them natively only).",
              note=TB),
  "C17": dict(text="The real extern \"C\" mz_inflate* wrappers with CBMC pointer checks: pointer advance = avail drop = total rise for every avail 0..3 and any core result; misuse matrix over all i32 parameter "
-                  "values returns error codes without panicking (found and fixed: window_bits = INT_MIN overflowed). mz_deflate's accounting (same code shape) exhausts CBMC's memory and is not claimed.",
+                  "values returns error codes without panicking (found and fixed: window_bits = INT_MIN overflowed); tinfl_decompress rebuilds exactly the caller's window; checksum wrappers handle null / zero length. mz_deflate's accounting (same code shape) exhausts CBMC's memory and is not claimed.",
              note=TB + "catch_unwind modelled as identity (panic=abort); inner inflate()/deflate() replaced by contract stubs."),
- "C18": dict(text="Low-level decoder: from a fully arbitrary prior state, init() + a stored stream gives exactly the results of a new decoder (3 schedules, raw and zlib incl. checksum state). Streaming-inflate reset "
-                  "policies and compressor reset are thorough-tier / documented (MinReset keeps the window by design).",
+ "C18": dict(text="Low-level decoder: from a fully arbitrary prior state, init() + a stored stream gives exactly the results of a new decoder (3 schedules, raw and zlib incl. checksum state). Compressor: reset() from a fully "
+                  "arbitrary 300 KB state equals new(flags) on all 28 scalars and every array entry. Streaming-inflate reset policies and mz_deflateReset do not fit (MinReset keeps the window by design).",
              note=TB + CUTS),
  "C19": dict(text="Block-boundary record: Some exactly in ReadBlockHeader, < 8 pending bits, rebuild preserves every register read afterwards (fully symbolic decoder); stop-at-boundary on stored streams: exactly one "
                   "stop per non-final block, continuing from the same or a REBUILT decoder gives the model's results incl. checksum verdict; clone() copies all registers (quick) and arrays (thorough). Serde is not covered.",
